@@ -77,3 +77,14 @@ Example C03_nonvacuous :
   = [OUnit; OState (Some 2%Z); OState (Some 6%Z); OState None; OBool false; OUnit; OState (Some 2%Z); OUnit; OState (Some 14%Z); OUnit; OState (Some 2%Z);
      OState (Some 3%Z); OState None; OState None].
 Proof. vm_compute. reflexivity. Qed.
+
+(* two solve() calls of RRT on the integer line (steps of at most 3, wall between 6 and 7, goal -8): the first reports an
+   approximate path, the second — resumed on the same tree — an exact one *)
+Definition zsteer3 (n r : Z) : Z := if (3 <? Z.abs (r - n))%Z then (if (n <? r)%Z then n + 3 else n - 3)%Z else r.
+Definition zmv67 (a b : Z) : bool := negb ((Z.min a b <=? 6) && (7 <=? Z.max a b))%Z.
+Example C03_rrt_resume_nonvacuous :
+  rrt_calls Z Z (fun a b => Z.abs (a - b)) Z.ltb zsteer3 zmv67 (fun s => (s =? -8)%Z) (fun s => Z.abs (s + 8)) (-8)%Z 0%Z [0%Z]
+            [([false; false], [5; 2]%Z); ([false; true; false; true; true], [-4; 9]%Z)]
+  = ([(0%Z, None); (3%Z, Some 0%nat); (2%Z, Some 1%nat); (-3, Some 0%nat)%Z; (-6, Some 3%nat)%Z; (6%Z, Some 1%nat); (-8, Some 4%nat)%Z],
+     [Some ([0; 3; 2]%Z, true, 10%Z); Some ([0; -3; -6; -8]%Z, false, 0%Z)]).
+Proof. vm_compute. reflexivity. Qed.
